@@ -10,7 +10,7 @@ use bc_envelope::base::envelope::EnvelopeCase;
 use bc_envelope::prelude::*;
 use std::collections::HashSet;
 
-fn observe(c: &mut Ctx, reg: &str) {
+pub(crate) fn observe(c: &mut Ctx, reg: &str) {
     if let Some(e) = c.env(reg) { c.note_shape(&e); c.obs(&format!("shape {}", reg)); }
 }
 
@@ -39,7 +39,7 @@ fn ancestors(p: &str) -> Vec<String> {
 }
 
 /// C03: expected effect of an elision, computed independently of elide.rs
-fn check_elision(orig: &Envelope, res: &Envelope, t: &HashSet<Digest>, revealing: bool, act: &str) -> Result<(usize, usize), String> {
+pub(crate) fn check_elision(orig: &Envelope, res: &Envelope, t: &HashSet<Digest>, revealing: bool, act: &str) -> Result<(usize, usize), String> {
     let els = elements(orig);
     let (mut hidden, mut visible) = (0, 0);
     for (p, y) in &els {
@@ -284,6 +284,16 @@ pub fn c12(c: &mut Ctx, b: &Budget) {
         let all: HashSet<Digest> = elements(&orig).iter().map(|(_, x)| x.digest().into_owned()).collect();
         for _ in 0..3 {
             let (ts, paths) = gen_targets(c, &e, 3, true);
+            c12_one(c, &cfg, &e, &orig, &all, &ts, &paths);
+        }
+        c.end();
+    }
+}
+
+/// C12 for one envelope and one target set: completeness, acceptance, soundness, minimality, a mutated proof
+pub(crate) fn c12_one(c: &mut Ctx, cfg: &GenCfg, e: &str, orig: &Envelope, all: &HashSet<Digest>, ts: &str, paths: &[String]) {
+    let (e, ts) = (e.to_string(), ts.to_string());
+    let paths: Vec<String> = paths.to_vec();
             let tset: HashSet<Digest> = if ts == "-" { HashSet::new() } else { ts.split(',').filter_map(|k| c.env(k)).map(|x| x.digest().into_owned()).collect() };
             // classification
             if paths.len() >= 2 { for x in &paths { for y in &paths { if x != y && (y.starts_with(&format!("{}/", x)) || x == ".") { c.count("branch:nested-targets"); } } } }
@@ -305,7 +315,7 @@ pub fn c12(c: &mut Ctx, b: &Budget) {
                             n };
                     c.check("proof-accepted", v == "true", if nested { "proof-nested-targets-rejected" } else { "proof-accepted" }, || format!("targets {:?}: proof {} of {} not accepted", paths, shape(&pr), shape(&orig)));
                     // soundness
-                    let unrelated = gen_leaf(c, &cfg);
+                    let unrelated = gen_leaf(c, cfg);
                     if c.env(&unrelated).map(|u| u.digest() != orig.digest()).unwrap_or(false) {
                         let v2 = c.obs(&format!("confirm {} {} {}", unrelated, ts, p));
                         c.check("other-root-rejected", v2 == "false", "other-root-rejected", || "proof accepted against another root".into());
@@ -335,9 +345,6 @@ pub fn c12(c: &mut Ctx, b: &Budget) {
                 Val::None => { c.check("proof-if-present", !present, "proof-if-present", || format!("no proof although every target occurs: {:?}", paths)); }
                 other => { let s = other.show(); c.check("proof-no-panic", false, "proof-panic", || s); }
             }
-        }
-        c.end();
-    }
 }
 
 /// every non-elided position of the proof is a proper ancestor of a target position;
@@ -467,6 +474,34 @@ fn corrupt_compressed(c: &mut Ctx, z: &Envelope) {
     }
 }
 
+/// C14 on a pool of envelopes (the first is the reference): all pairwise relations against independently computed ones
+pub(crate) fn c14_pool(c: &mut Ctx, pool: &[String]) {
+    let orig = match c.env(&pool[0]) { Some(x) => x, None => return };
+        for x in pool.iter() { c.obs(&format!("sdigest {}", x)); }
+        let envs: Vec<Envelope> = pool.iter().map(|r| c.env(r).unwrap()).collect();
+        for (i, x) in pool.iter().enumerate() { for (j, y) in pool.iter().enumerate() {
+            c.obs(&format!("eq {} {}", x, y));
+            let (a, bb) = (&envs[i], &envs[j]);
+            let equiv = a.is_equivalent_to(bb); let ident = a.is_identical_to(bb);
+            c.check("equivalent-iff-digest", equiv == (a.digest() == bb.digest()), "equivalent-iff-digest", || format!("{} {}", shape(a), shape(bb)));
+            // identical iff equivalent and same obscuration pattern (computed independently)
+            let pattern = |e: &Envelope| -> Vec<(String, &'static str)> { elements(e).into_iter().filter(|(_, x)| x.is_obscured()).map(|(p, x)| (p, case_name(&x))).collect() };
+            let same_pattern = pattern(a) == pattern(bb) && elements(a).len() == elements(bb).len();
+            c.check("identical-iff-pattern", ident == (equiv && same_pattern), "identical-iff-pattern", || format!("ident={} equiv={} same_pattern={}: {} vs {}", ident, equiv, same_pattern, shape(a), shape(bb)));
+            c.check("identical-implies-equivalent", !ident || equiv, "identical-implies-equivalent", || String::new());
+            c.check("symmetric", ident == bb.is_identical_to(a) && equiv == bb.is_equivalent_to(a), "symmetric", || String::new());
+            c.check("eq-operator", (a == bb) == ident, "eq-operator", || String::new());
+            if i == j { c.check("reflexive", ident && equiv, "reflexive", || shape(a)); }
+            for cc in &envs { if ident && bb.is_identical_to(cc) { c.check("transitive", a.is_identical_to(cc), "transitive", || String::new()); } }
+        } }
+        // obscuring a present, non-obscured element: equivalent, not identical
+        for (k, x) in envs.iter().enumerate().skip(1) {
+            if x.digest() == orig.digest() && shape(x) != shape(&orig) {
+                c.check("obscured-equivalent-not-identical", x.is_equivalent_to(&orig) && !x.is_identical_to(&orig), "obscured-equivalent-not-identical", || format!("{} vs {} ({})", shape(&orig), shape(x), pool[k]));
+            }
+        }
+}
+
 /// C14 - equivalence and identity
 pub fn c14(c: &mut Ctx, b: &Budget) {
     let cfg = GenCfg::default();
@@ -512,29 +547,7 @@ pub fn c14(c: &mut Ctx, b: &Budget) {
                 if c.is_ok(&n2) { pool.push(n2); c.count("pool:repeated-value-mixed-forms"); }
             }
         }
-        for x in &pool { c.obs(&format!("sdigest {}", x)); }
-        let envs: Vec<Envelope> = pool.iter().map(|r| c.env(r).unwrap()).collect();
-        for (i, x) in pool.iter().enumerate() { for (j, y) in pool.iter().enumerate() {
-            c.obs(&format!("eq {} {}", x, y));
-            let (a, bb) = (&envs[i], &envs[j]);
-            let equiv = a.is_equivalent_to(bb); let ident = a.is_identical_to(bb);
-            c.check("equivalent-iff-digest", equiv == (a.digest() == bb.digest()), "equivalent-iff-digest", || format!("{} {}", shape(a), shape(bb)));
-            // identical iff equivalent and same obscuration pattern (computed independently)
-            let pattern = |e: &Envelope| -> Vec<(String, &'static str)> { elements(e).into_iter().filter(|(_, x)| x.is_obscured()).map(|(p, x)| (p, case_name(&x))).collect() };
-            let same_pattern = pattern(a) == pattern(bb) && elements(a).len() == elements(bb).len();
-            c.check("identical-iff-pattern", ident == (equiv && same_pattern), "identical-iff-pattern", || format!("ident={} equiv={} same_pattern={}: {} vs {}", ident, equiv, same_pattern, shape(a), shape(bb)));
-            c.check("identical-implies-equivalent", !ident || equiv, "identical-implies-equivalent", || String::new());
-            c.check("symmetric", ident == bb.is_identical_to(a) && equiv == bb.is_equivalent_to(a), "symmetric", || String::new());
-            c.check("eq-operator", (a == bb) == ident, "eq-operator", || String::new());
-            if i == j { c.check("reflexive", ident && equiv, "reflexive", || shape(a)); }
-            for cc in &envs { if ident && bb.is_identical_to(cc) { c.check("transitive", a.is_identical_to(cc), "transitive", || String::new()); } }
-        } }
-        // obscuring a present, non-obscured element: equivalent, not identical
-        for (k, x) in envs.iter().enumerate().skip(1) {
-            if x.digest() == orig.digest() && shape(x) != shape(&orig) {
-                c.check("obscured-equivalent-not-identical", x.is_equivalent_to(&orig) && !x.is_identical_to(&orig), "obscured-equivalent-not-identical", || format!("{} vs {} ({})", shape(&orig), shape(x), pool[k]));
-            }
-        }
+        c14_pool(c, &pool);
         c.end();
     }
 }
